@@ -155,6 +155,7 @@ func envAccepts(cnames []string, cvs map[string]*ref.V, rnames []string, rvs map
 }
 
 func runC07(c *run.Ctx) {
+	sameGoType(c)
 	user := ref.UserFuns()
 	n := c.Pick(1200, 25000)
 	for i := 0; i < n; i++ {
@@ -205,6 +206,7 @@ func runC07(c *run.Ctx) {
 			if r.Intn(2) == 0 {
 				ex.UseClosureCompiler()
 			}
+			ex.Compile("1", nil) // built-ins first (they are registered at the first compilation)
 			ex.RegisterFun(sess.UserVals...)
 			var cl yae.Callable
 			if err, p := convGuard(func() error { var e error; cl, e = ex.Compile(src, cenv); return e }); err != nil || p != "" {
@@ -382,10 +384,70 @@ func runC07(c *run.Ctx) {
 	}
 }
 
+type c07Iface struct {
+	V interface{} `yae:"v"`
+	P *int        `yae:"p"`
+	K int         `yae:"k"`
+}
+
+// sameGoType: environments of ONE Go struct type whose types differ
+// (interface-typed field, untagged pointer nil / non-nil).
+func sameGoType(c *run.Ctx) {
+	one := 1
+	variants := []struct {
+		env  c07Iface
+		sig  string
+		want string
+	}{
+		{c07Iface{V: 1, P: &one, K: 1}, "num/present", "1"},
+		{c07Iface{V: 2.5, P: &one, K: 2}, "num/present", "2.5"},
+		{c07Iface{V: "s", P: &one, K: 3}, "str/present", "s"},
+		{c07Iface{V: 3, P: nil, K: 4}, "num/absent", "3"},
+		{c07Iface{V: []int{1}, P: &one, K: 5}, "list/present", "[1]"},
+		{c07Iface{V: true, P: &one, K: 6}, "bool/present", "true"},
+	}
+	for i := 0; i < c.Pick(200, 3000); i++ {
+		if !c.Mine(i) {
+			continue
+		}
+		c.Case(fmt.Sprintf("same-go-type/%d", i), func() {
+			r := c.Rng("samego", i)
+			first := variants[r.Intn(len(variants))]
+			ex := yae.NewExpr()
+			if r.Intn(2) == 0 {
+				ex.UseClosureCompiler()
+			}
+			cl, err := ex.Compile("string(v)", first.env)
+			if err != nil {
+				c.Violation("env-compile", "compile against "+first.sig+" fails: "+err.Error(), nil)
+				return
+			}
+			for k := 0; k < 8; k++ {
+				v := variants[r.Intn(len(variants))]
+				var env interface{} = v.env
+				if r.Intn(3) == 0 {
+					e2 := v.env
+					env = &e2
+				}
+				c.Count("invocations_checked", 1)
+				out, err := cl(env)
+				accept := v.sig == first.sig
+				what := fmt.Sprintf("call %d of string(v) compiled against a %s value of struct type c07Iface, invoked with a %s value of the same Go type", k, first.sig, v.sig)
+				if accept != (err == nil) {
+					c.Violation("env-check", fmt.Sprintf("%s: accepted=%v, must be %v (%v)", what, err == nil, accept, err), nil)
+				} else if err == nil && out.Str().V != v.want {
+					c.Violation("env-value", fmt.Sprintf("%s evaluates to %q, not %q", what, out.Str().V, v.want), nil)
+				}
+			}
+			c.Distinct(fmt.Sprintf("samego/%s/%d", first.sig, i%7))
+		})
+	}
+}
+
 func init() {
 	run.Register(&run.Spec{
 		ID: "C07", Run: runC07, Level: "exploration",
-		Rule: "(compile-time environment, run-time environment) pairs over 10 names (primitives, time, lists, maps, objects, nested objects with optional fields) in three forms each (map[string]interface{}, reflection-built struct with permuted field order, raw *types.Env / *val.Env): run-time variants = new values of equal types with extra names, exactly the compile-time names, a dropped name, a value retyped at depth 0-3 (other primitive, other element type, dropped / renamed / retyped object field, optional vs plain); six invocations of ONE Callable per case with conforming and mismatching environments interleaved, including one raw environment object re-bound in place between calls; compile-time type environments sharing one composite node; the program passes every compile-time name through a recording host function; " +
+		Rule: "(compile-time environment, run-time environment) pairs over 10 names (primitives, time, lists, maps, objects, nested objects with optional fields) in three forms each (map[string]interface{}, reflection-built struct with permuted field order, raw *types.Env / *val.Env): run-time variants = new values of equal types with extra names, exactly the compile-time names, a dropped name, a value retyped at depth 0-3 (other primitive, other element type, dropped / renamed / retyped object field, optional vs plain); six invocations of ONE Callable per case with conforming and mismatching environments interleaved, including one raw environment object re-bound in place between calls; compile-time type environments sharing one composite node; environments of ONE Go struct type whose type depends on the value (interface-typed field, untagged pointer) alternating on one Callable; the program passes every compile-time name through a recording host function; " +
 			"monitor: accepted <=> every compile-time name is bound to a value of (reference-)equal type; a refused call leaves an empty host-call trace; an accepted call returns the reference evaluator's value. distinct = (source, form)",
 		Assume:    []string{"reference type of host data is the type of the reference value it was built from (bridge to Go values in props/togo.go)"},
 		MinEvents: 3000, EventKey: "invocations_checked",
